@@ -240,6 +240,11 @@ def fault_scenarios(run, menu_name, theorems, only_locks=False):
             e = rng.choice([errno.EIO, errno.ENOSPC, errno.EACCES])
             res = cf.run_faulted(u, setup, call, k, pers, e, keep=True)
             im = res["im"]
+            # the point's name for known-finding signatures: which operation on which file failed, and which occurrence of
+            # it within the call (not its index among all operations: an added read-only probe elsewhere must not rename it)
+            if res["fired"]:
+                occ = sum(1 for x in res["site_list"] if tuple(x) == tuple(res["fired"]))
+                POINT[0] = "%s:%d:%s %s#%d:%d" % (menu_name.replace(".json", ""), s["id"], res["fired"][0], im.abs.addr(res["fired"][1]), occ, 1 if pers else 0)
             try:
                 mo, mst, mlocks, msites = cf.parse_fault_result(mr)
                 key = (s["id"], k, pers)
